@@ -414,8 +414,14 @@ theorem inv_step {H : Ser → List Char} {s : St} (hinv : Inv H s) (e : Ev) : In
     simp only [step]
     split
     · exact ⟨hinv.inj, hinv.symHist, hinv.below, hinv.track, hinv.insts⟩
-    · exact inv_define hinv n (.memento ex tok refs) rfl [⟨n, s.next, none, [], []⟩]
+    · have hdef := inv_define hinv n (.memento ex tok refs) rfl [⟨n, s.next, none, [], []⟩]
         (fun y hy => by rcases List.mem_singleton.mp hy with rfl; exact ⟨rfl, rfl⟩) (s.gen + 1)
+      cases ex with
+      | some e => exact hdef
+      | none =>
+        refine inv_recompute hdef ⟨⟨s.next, .memento none tok refs⟩, ?_, rfl⟩
+        show lookupB (bind s.sym n ⟨s.next, .memento none tok refs⟩) n = _
+        rw [lookupB_bind]; simp
   | defPlain n tok refs =>
     have := inv_define hinv n (.plain true tok refs) rfl [] (fun y hy => by cases hy) s.gen
     simpa [step] using this
